@@ -21,13 +21,14 @@ RANGES = {"tiny": (-128, 127), "short": (-32768, 32767), "int": (-2**31, 2**31 -
 class Opts:
     def __init__(self, **kw):
         self.avoid_short_circuit = True     # C03 #5: && || evaluate both operands
-        self.avoid_ternary_nonint = True    # C01 #39: ?: yields 0 when the chosen branch is a long/short/tiny variable
+        self.avoid_ternary_nonint = False   # C01 #39 (fixed by 990fbc8): ?: yielded 0 when the chosen branch was a long/short/tiny variable
         self.avoid_elem_rhs = True          # C01 #40/#41: a[i] = (c ? x : y) stores 0; a[i] = f() calls f twice
         self.avoid_elem_compound = True     # C01 #1: a[e] op= v only for literal / variable index on 1-D arrays
         self.avoid_incdec_limit = True      # C04 #7: ++/-- are not range checked
         self.avoid_multidim_narrow = True   # C04: stores into multi-dimensional arrays are not range checked
         self.avoid_print_retry = True       # C01/C03: println re-evaluates an argument whose evaluation failed
         self.avoid_multi_index_order = True # C03: indices of a multi-dimensional access are evaluated right to left
+        self.avoid_ternary_multidim = True  # C01/C10: a ?: branch that mentions a multi-dimensional element crashes the interpreter (SIGSEGV)
         self.avoid_return_elem = True       # C04/C10: `return m[i][j];` (bare multi-dim element) loses the range check / crashes the caller
         self.max_stmts = 8
         self.max_depth = 3
@@ -134,7 +135,11 @@ class Gen:
                         return "(v %d)" % r.choice(ints)[0]
                     return str(r.choice(SMALL + [127, 128, 32767, 2147483647, -2147483648]))
                 return "(cond %s %s %s)" % (c, br(), br())
-            return "(cond %s %s %s)" % (c, self.expr(env, d - 1, calls), self.expr(env, d - 1, calls))
+            benv = env
+            if self.o.avoid_ternary_multidim:      # finding C01-ternary-multidim-segv
+                benv = dict(env)
+                benv["arrays"] = [a for a in env["arrays"] if len(a[2]) == 1]
+            return "(cond %s %s %s)" % (c, self.expr(benv, d - 1, calls), self.expr(benv, d - 1, calls))
         if k < 0.88 and calls and self.funcs and env.get("calls_ok", True):
             f = r.choice([f for f in self.funcs if f[0] in env.get("callable", [x[0] for x in self.funcs])] or [None])
             if f is None:
